@@ -22,7 +22,7 @@ def units(ctx):
         cs += [("theta", 30), ("theta", 90), ("theta3", 60), ("W", ((1, 1), (-1, 2)), "unit"), ("W", ((1, 2), (2, 1)), "unit")]
     B = 2 if ctx.thorough else 1
     for spec in cs:
-        for mu in reach.truths(2, 2, True, ctx.seed)[: (12 if ctx.thorough else 8)]:
+        for mu in reach.truths(2, 2, True, ctx.seed):
             us.append(("reach", PROPERTY, "VOGP", spec, 2, 2, mu, 8, B))
         k3 = reach.truths(3, 2, True)
         if not ctx.thorough:
